@@ -35,6 +35,7 @@ type Cmd struct {
 	Op   string `json:"op"`
 	Lab  bool   `json:"lab"`
 	Wait bool   `json:"wait"`
+	Bb   bool   `json:"bb"` // kind watch with tail / bookmark: also ask for the bootstrap bookmark
 }
 
 type Group struct {
@@ -56,24 +57,25 @@ type AbsEv struct {
 
 // Line is one trace line (all fields always present).
 type Line struct {
-	Ev   string `json:"ev"`
-	Tid  string `json:"tid"`
-	Op   string `json:"op"`
-	ID   int    `json:"id"`
-	Ver  int    `json:"ver"`
-	Lab  bool   `json:"lab"`
-	W    int    `json:"w"`
-	Kind string `json:"kind"`
-	Filt bool   `json:"filt"`
-	Mode string `json:"mode"`
-	N    int    `json:"n"`
-	P    int    `json:"p"`
-	Bm   string `json:"bm"`
-	Res  string `json:"res"`
+	Ev     string `json:"ev"`
+	Tid    string `json:"tid"`
+	Op     string `json:"op"`
+	ID     int    `json:"id"`
+	Ver    int    `json:"ver"`
+	Lab    bool   `json:"lab"`
+	W      int    `json:"w"`
+	Kind   string `json:"kind"`
+	Filt   bool   `json:"filt"`
+	Mode   string `json:"mode"`
+	N      int    `json:"n"`
+	P      int    `json:"p"`
+	Bm     string `json:"bm"`
+	Res    string `json:"res"`
 	E      AbsEv  `json:"e"`
 	Note   string `json:"note"`
 	Remote bool   `json:"remote"`
 	Retry  bool   `json:"retry"`
+	Bb     bool   `json:"bb"`
 }
 
 var idNames = []string{"", "a", "b", "c", "d"}
@@ -157,6 +159,7 @@ type run struct {
 	wst    state.CoreState // watches are started here (the same state, or a remote view of it)
 	remote bool
 	retry  bool
+	bb     bool
 	wfs    map[int]*wfaults
 	ctx    context.Context
 	ws     map[int]*watcher // by command slot
@@ -255,6 +258,10 @@ func (r *run) bookmark(p int, variant string) state.Bookmark {
 }
 
 func (r *run) start(slot int, kind string, id int, filt bool, mode string, n, p int, bmVariant string) {
+	// r.bb (set by the caller for this one start): kind watch with tail / bookmark that also asks for the bootstrap bookmark
+	bb := r.bb && kind != "one" && (mode == "tail" || mode == "bookmark")
+	r.bb = false
+
 	ctx, cancel := context.WithCancel(r.ctx)
 	r.nextW++
 	w := &watcher{w: r.nextW, kind: kind, cancel: cancel}
@@ -299,6 +306,10 @@ func (r *run) start(slot int, kind string, id int, filt bool, mode string, n, p 
 			opts = append(opts, state.WithBootstrapBookmark(true))
 		}
 
+		if bb {
+			opts = append(opts, state.WithBootstrapBookmark(true))
+		}
+
 		kindMd := resource.NewMetadata(ns, vh.IntType, "", resource.VersionUndefined)
 
 		if kind == "agg" {
@@ -320,7 +331,7 @@ func (r *run) start(slot int, kind string, id int, filt bool, mode string, n, p 
 		res = "error:" + err.Error()
 	}
 
-	r.emit(Line{Ev: "start", W: w.w, Kind: kind, ID: id, Filt: filt, Mode: mode, N: n, P: p, Bm: bmVariant, Res: res, Remote: r.remote, Retry: r.retry})
+	r.emit(Line{Ev: "start", W: w.w, Kind: kind, ID: id, Filt: filt, Mode: mode, N: n, P: p, Bm: bmVariant, Res: res, Remote: r.remote, Retry: r.retry, Bb: bb})
 
 	if err != nil {
 		cancel()
@@ -435,6 +446,7 @@ func runBehaviour(t *testing.T, tr *vh.Trace, tid string, g Group, beh []Cmd, co
 			case "pub":
 				r.pub(c)
 			case "start":
+				r.bb = c.Bb
 				r.start(c.W, c.Kind, c.ID, c.Filt, c.Mode, c.N, c.P, "pos")
 			case "recv":
 				r.recv(r.ws[c.W])
@@ -454,6 +466,7 @@ func runBehaviour(t *testing.T, tr *vh.Trace, tid string, g Group, beh []Cmd, co
 
 			for i, p := range poss {
 				r.start(0, "one", r.seenID[p], false, "bookmark", 0, p, "pos")
+				r.bb = i%3 == 0
 				r.start(0, []string{"all", "agg"}[i%2], 0, false, "bookmark", 0, p, "pos")
 			}
 
@@ -471,6 +484,7 @@ func runBehaviour(t *testing.T, tr *vh.Trace, tid string, g Group, beh []Cmd, co
 			// every tail size
 			for n := 1; n <= g.MaxCap+2; n++ {
 				r.start(0, "one", 1+n%2, false, "tail", n, 0, "")
+				r.bb = n%3 == 0
 				r.start(0, []string{"all", "agg"}[n%2], 0, false, "tail", n, 0, "")
 			}
 
